@@ -5,6 +5,7 @@ pub mod c01;
 pub mod c03;
 pub mod c04;
 pub mod c09;
+pub mod c13;
 pub mod c14;
 pub mod c19;
 
@@ -30,6 +31,7 @@ table! {
     "C03" => c03::C03,
     "C04" => c04::C04,
     "C09" => c09::C09,
+    "C13" => c13::C13,
     "C14" => c14::C14,
     "C19" => c19::C19,
 }
